@@ -69,6 +69,13 @@ func NewStateProcessor(bc *BlockChain, engine consensus.Engine) *StateProcessor 
 }
 
 func (p *StateProcessor) Process(yp *params.YouParams, block *types.Block, statedb *state.StateDB, lcfg vm.LocalConfig, recorder local.DetailRecorder) (*types.ProcessResult, error) {
+	return p.processOn(p.bc, yp, block, statedb, lcfg, recorder)
+}
+
+// processOn is Process with an explicit view of the chain the block belongs to: the BlockChain itself, or,
+// for a block of a side chain under verification, a view that also knows the side chain's blocks which
+// are not stored yet (the block's own ancestors).
+func (p *StateProcessor) processOn(chain consensus.ChainReader, yp *params.YouParams, block *types.Block, statedb *state.StateDB, lcfg vm.LocalConfig, recorder local.DetailRecorder) (*types.ProcessResult, error) {
 	if yp == nil {
 		return nil, errors.New("no YouParams")
 	}
@@ -89,7 +96,7 @@ func (p *StateProcessor) Process(yp *params.YouParams, block *types.Block, state
 
 	for i, tx := range block.Transactions() {
 		statedb.Prepare(tx.Hash(), block.Hash(), i)
-		receipt, _, err := p.ApplyTransaction(tx, signer, statedb, p.bc, header, nil, usedGas, gasRewards, gp, cfg, recorder)
+		receipt, _, err := p.ApplyTransaction(tx, signer, statedb, chain, header, nil, usedGas, gasRewards, gp, cfg, recorder)
 		if err != nil {
 			return nil, err
 		}
@@ -104,14 +111,14 @@ func (p *StateProcessor) Process(yp *params.YouParams, block *types.Block, state
 
 	logging.Info("process block", "number", header.Number, "txs", block.Transactions().Len(), "usedGas", usedGas, "hUsedGas", header.GasUsed, "gasRewards", gasRewards, "hGasRewards", header.GasRewards)
 
-	extendReceipts, _, _ := p.EndBlock(p.bc, header, block.Transactions(), statedb, false, recorder)
+	extendReceipts, _, _ := p.EndBlock(chain, header, block.Transactions(), statedb, false, recorder)
 	for _, receipt := range extendReceipts {
 		if receipt != nil {
 			receipts = append(receipts, receipt)
 			allLogs = append(allLogs, receipt.Logs...)
 		}
 	}
-	p.engine.Finalize(p.bc, header, statedb, block.Transactions(), receipts)
+	p.engine.Finalize(chain, header, statedb, block.Transactions(), receipts)
 
 	exdetail := recorder.Finalize()
 	return &types.ProcessResult{
